@@ -101,6 +101,9 @@ def quiet_world(sim_config=None, **kw):
     sel.ctl = ctl
     loop = harness.VirtualLoop(sel, ctl)
     w = mosaik.World(sim_config or SIM_CONFIG, skip_greetings=True, asyncio_loop=loop, **kw)
+    if w.loop is not loop:
+        from mvf.core import HarnessError
+        raise HarnessError("World(asyncio_loop=...) did not adopt the given event loop: the harness cannot run")
     w._mvf_ctl = ctl
     return w
 
